@@ -8,8 +8,10 @@
    of the boundary convention.  For the default horizon (model/Search.v, repaired condition): the
    search returns a time whose absorption probability reaches p_absorption, or the warning flag is
    set - never a silent truncation.
-   Not proved (needs positivity of the propagators): raw accumulation curves are non-decreasing;
-   checked on the implementation by the accumulation stream. *)
+   Raw accumulation curves of FIRST moments of non-negative rewards are non-decreasing: proved for the translated
+   _accumulate on any demography with generator rate matrices (C10_source_first_moment_curve_nondecreasing at the end of this
+   file; analysis/SourceMonotone.v).  Not proved: the same for raw moments of order >= 2 (checked on the implementation by the
+   accumulation stream). *)
 From Coq Require Import QArith List.
 From PG Require Import base.Perm model.Loop proofs.LoopProofs model.Search proofs.SearchProofs.
 Import ListNotations.
@@ -117,3 +119,18 @@ Theorem C10_distributions_py_default_horizon_or_warning :
     r.2 = false -> Rle (Q2R p_abs) (cdf_at expm Ss Slast alpha e r.1).
 Proof. exact @source_horizon_sound. Qed.
 Print Assumptions C10_distributions_py_default_horizon_or_warning.
+
+(* raw first-moment accumulation curves of non-negative rewards never decrease (translated _accumulate, any demography) *)
+From PG Require Import gen.LoopsGen analysis.SourceLinear analysis.SourceMonotone.
+Theorem C10_source_first_moment_curve_nondecreasing :
+  forall (expm : seq (seq R) -> seq (seq R)),
+    (forall n A, wf n n A -> wf n n (expm A) /\ mx_of n n (expm A) = mexp (mx_of n n A)) ->
+  forall (regf : seq (seq R) -> R) (n : nat) (Ss : seq (Q * seq (seq R))) (Slast : seq (seq R)) (alpha r : seq R) (t1 t2 : Q),
+    regf (List.hd (None, Slast) (all_epochs Ss Slast)).2 <> 0%R ->
+    List.Forall (fun x : Q * seq (seq R) => is_generator n x.2) Ss -> is_generator n Slast ->
+    (forall j, (j < n)%N -> Rle R0 (nth 0%R alpha j)) ->
+    size r = n -> (forall j, (j < n)%N -> Rle R0 (nth 0%R r j)) ->
+    epochs_wf (seq (seq R)) 0%QQ Ss -> (0 <= t1)%QQ -> (t1 <= t2)%QQ ->
+    Rle (nth 0%R (acc1 expm regf Ss Slast alpha [:: t1] r) 0%N) (nth 0%R (acc1 expm regf Ss Slast alpha [:: t2] r) 0%N).
+Proof. exact: source_first_moment_monotone. Qed.
+Print Assumptions C10_source_first_moment_curve_nondecreasing.
